@@ -174,3 +174,9 @@ func readLines(path string) []string {
 	}
 	return out
 }
+
+func devNull() *bufio.Writer {
+	f, err := os.OpenFile(os.DevNull, os.O_WRONLY, 0)
+	must(err)
+	return bufio.NewWriter(f)
+}
